@@ -10,7 +10,7 @@ from ..graph import find_path, ret_class, ev_dominates, control_deps_transitive,
 from ..fd import FD, Top, values_at
 from .. import ser, df
 from . import chunks
-from .common import exceptions
+from .common import exceptions, compare_info
 
 EXPL = ('Compile-time witnesses (static asserts over the repository headers, clang and gcc) for the published layout; finite-domain '
         'evaluation of the tag packing and of the padding arithmetic over all byte residues (writer and reader expressions); ordering '
@@ -29,6 +29,8 @@ def run(ctx, sess):
     ctx.rule('C05.3', 'header stamping: in the header writer the CRC store follows every other store to the header and dominates the write of the header')
     ctx.rule('C05.4', 'padding: writer and reader compute the same on-disk payload size for every byte residue, header + payload + pad + crc is a multiple of 8, the pad is zero-filled, the payload CRC is little-endian at the end')
     ctx.rule('C05.12', 'a repaired file has no INDEX without its SUMMARY: on the not-closed branch of jls_rd_open the tag of the last complete chunk is examined before the truncation, and when it is an INDEX (its SUMMARY was cut off by the crash) the cut moves to the chunk before it (jls_raw_chunk_prev) - the pair is written again by the rebuild')
+    ctx.rule('C05.13', 'next-item pointers of a repaired file lead to chunks: pointer repair cuts the link of every chain end it keeps - index, summary and data chunk (shared with C03.r)')
+    ctx.rule('C05.14', 'the recorded file length equals the file size also when the writer stopped after END: jls_rd_open remembers that the file header came without its length (TRUNCATED) and, on the path on which the END chunk is found, tests that before it succeeds (and then writes the header through a writable close)')
     ctx.rule('C05.11', 'FSR summary chunks carry what their header announces: the payload length handed to the summary writer is header + entry_count x the entry size that was stored in entry_size_bits (4 x f32 or 4 x f64, chosen by data type), not the size of a fixed struct type')
     ctx.rule('C05.5', 'previous-length bookkeeping: every successful append updates last_payload_length when at the end of the file (also for an empty payload)')
     ctx.rule('C05.6', 'adjacency: after an INDEX chunk is written, the next chunk written on every path is the SUMMARY of the same level')
@@ -44,6 +46,9 @@ def run(ctx, sess):
     r5b(ctx, P)
     r11(ctx, P)
     r12(ctx, P)
+    r14(ctx, P)
+    from .c03 import repair_chains_rule
+    repair_chains_rule(ctx, P, 'C05.13')
     r6(ctx, P)
     r7(ctx, P)
     r8(ctx, P)
@@ -698,3 +703,39 @@ def r12(ctx, P):
                 why = 'on the INDEX edge the truncation is reached without stepping to the chunk before'
         ctx.ob('C05.12', ok, fn.name, 'truncation when the last complete chunk is an INDEX', t.where(),
                'the cut moves before the INDEX' if ok else why + ': the crash fell between an INDEX and its SUMMARY, the INDEX stays in the file, the rebuild appends a new INDEX / SUMMARY pair after it, and the file then holds INDEX INDEX SUMMARY with the links of the orphan pointing at chunks that no longer point back')
+
+
+
+def r14(ctx, P):
+    fn = P.fn('jls_rd_open')
+    TRUNC = P.enum_consts.get('JLS_ERROR_TRUNCATED')
+    END = P.enum_consts['JLS_TAG_END']
+    flags = set()
+    for e_ in fn.events():
+        if e_.k in ('decl', 'store') and e_.e is not None:
+            rhs = e_.e if e_.k == 'decl' else e_.store_parts()[1]
+            name = e_.name if e_.k == 'decl' else strip_casts(e_.store_parts()[0]).get('name')
+            if rhs is not None and name and any(m_.get('op') == 'bin' and m_['o'] == '==' and TRUNC in (const_of(m_['k'][0]), const_of(m_['k'][1])) for m_ in walk(rhs)):
+                flags.add(name)
+    tests = {b.id for b in fn.blocks.values() if b.cond is not None and any(m_.get('op') == 'ref' and m_.get('name') in flags for m_ in walk(b.cond))}
+    # the END-found edge
+    ends = []
+    for b in fn.blocks.values():
+        ci = compare_info(b.cond) if b.cond is not None else None
+        if ci is None:
+            continue
+        l, r_, eq_label = ci
+        for x, y in ((l, r_), (r_, l)):
+            px = fn.path(strip_casts(x))
+            if px is not None and px.last_field() == 'tag' and const_of(y) == END:
+                ends.append((b, eq_label))
+    if not ends:
+        raise AnalysisBroken('jls_rd_open: test of the last chunk for END not found')
+    for b, lab in ends:
+        i_ = [k for k, (s_, l_) in enumerate(b.succs) if l_ == lab]
+        w = find_path(fn, (b, i_[0]), lambda e2, facts: 'target' if (e2.k == 'ret' and ret_class(fn, e2, facts) in ('zero', 'unknown')) else None,
+                      edge_ok=lambda b_, s_, l_: b_.id not in tests, refine=False) if i_ else None
+        ctx.ob('C05.14', bool(flags) and w is None, fn.name, 'file header without its length, END chunk present', b.events[-1].where() if b.events else fn.where(),
+               'the open tests the remembered TRUNCATED result before it succeeds' if (flags and w is None) else
+               'jls_raw_open reports the missing length (TRUNCATED), the open tolerates it, finds the END chunk and succeeds: the file keeps a header length of 0 for good (the writer stopped between the END chunk and the header update of jls_wr_close)',
+               w.render() if w else None)
